@@ -22,6 +22,8 @@ def run(tier, runner):
     r_nm.findings = [f for f in r_nm.findings if 'SmallSet' in f.key]
     r_ci = sets.cmp_init(progs)
     r_ci.findings = [f for f in r_ci.findings if 'SmallSet' in f.key]
+    r_pair = sets.ss_pair(progs)
+    r_pair.require(1, 'members that replace a whole container (swap: positive control)')
     r_lex.require(4, 'state combinations of the ordering comparison')
     r_gr.require(3, 'grow call sites')
     r_state.require(25, 'writes to the two containers of SmallSet')
@@ -30,12 +32,12 @@ def run(tier, runner):
     r_node.require(2, 'insert(node) overloads')
     r_sib.require(8, 'state-dependent const members')
     return {
-        'results': [r_state, r_dup, r_cmp, r_node, r_sib, r_mo, r_lex, r_gr, r_is, r_ci, r_nm],
+        'results': [r_state, r_dup, r_cmp, r_node, r_sib, r_mo, r_lex, r_gr, r_is, r_ci, r_nm, r_pair],
         'explanation': 'C04 as stated (membership / size / comparison results over histories) is not decided.  Decided: SS-STATE - exactly one of the two '
                        'containers is written in each state (typestate on isSmall()/isSmallContFull()/grow() facts per operand; grow() moves all of the '
                        'vector into the set and clears it; private helpers are entered with their state established by every caller); SS-DUP - no path '
                        'adds to the inline vector without a membership test over it; CMP-OBJ - the stored comparator is used (also for the sorted '
-                       'snapshot of operator<); NODE; ALT-SIB - every state-dependent const member consults only the active container; LEX-SIB - the four state combinations of operator< / <=> all return a lexicographical comparison of (this, other); MERGE-ORDER - merge traverses the source forwards; SS-GROW - the inline state is left only when the inline vector is full (or the merged set is large).  Both backings '
+                       'snapshot of operator<); NODE; ALT-SIB - every state-dependent const member consults only the active container; LEX-SIB - the four state combinations of operator< / <=> all return a lexicographical comparison of (this, other); MERGE-ORDER - merge traverses the source forwards; SS-PAIR - a member that replaces one of the two containers as a whole (assignment, swap) replaces or empties the other one on the same path; SS-GROW - the inline state is left only when the inline vector is full (or the merged set is large).  Both backings '
                        '(std::set and FlatSet) and several N are analysed, so the two instantiations are checked against the same rules.',
         'assumptions': ['the behaviour of the backing set (std::set / FlatSet) is trusted / C03'],
         'trusted': ['the amcsa plugin export', 'libstdc++ 12'],
